@@ -10,12 +10,16 @@ otherwise the answer is `rho-diff …` (which can never equal the implementation
 ops
   reset
   acct <addr> <bal> <nonce>
+  miner <idhex> <typ> <stake> <account> <hasAccount 0|1> <status> <applyHeight>
   esc <height> <id> <amount>
   watch <addr>*            watchesc (<height> <id>)*
   q
-  block <height> <p004> <flags6> <fee> <feeacct> <reward|x> <ntx> tx*
+  diff <castorIdHex> <count> <workingMiners>
+  block <height> <p004> <flags6> <fee> <feeacct> S <p010 0|1> <p019 0|1> <p025Block|x> <castorIdHex> <reward|x> <ntx> tx*
       tx = <hash> <req> <nonce> <typ> <srcStrHex> <src> <feeAddr> <srcNumHex> body
-      body = e | j <datahex> | t <n> (<keyhex> <addr> <amt|x>)*
+      body = e | j <datahex> | t <n> (<keyhex> <addr> <amt|x>)* | r <amount|x> <minerIdHex>
+             | o <ok> <evicted> <msghex> <k> (<addr> <bal> <nonce>)*      (observed effect of an EVM transaction)
+      reward = x | <nextHeight> <castor> <share> <np> pairs <nv> pairs | F <totalBits> <rewardBlocks> <castorIdHex> <x | n ids>
   ca <src> <n> (<keyhex> <addr> <amt|x>)*
   radd <n> (<height> <k> (<id> <val>)*)*
   cmove <height>
@@ -44,7 +48,9 @@ def hex20 (n : Nat) : String := toHex (padLeft 20 (natToBE n))
 def dump (d : DS) (s : St) : String :=
   let a := d.watch.map (fun x => hex20 x ++ ":" ++ toString (s.bal x) ++ ":" ++ toString (s.nonce x))
   let e := d.wesc.map (fun (h, i) => toString h ++ ":" ++ hex20 i ++ ":" ++ toString (s.escrow h i))
-  "st=" ++ ",".intercalate a ++ " esc=" ++ ",".intercalate e
+  let m := s.miners.map (fun r => toString r.id ++ ":" ++ toString r.typ ++ ":" ++ toString r.stake ++ ":"
+    ++ (if r.hasAccount then hex20 r.account else "-") ++ ":" ++ toString r.status ++ ":" ++ (if r.alive then "1" else "0"))
+  "st=" ++ ",".intercalate a ++ " esc=" ++ ",".intercalate e ++ " mi=" ++ ",".intercalate m
 
 def amt? (s : String) : Option Amt := if s == "x" then some .bad else (nat? s).map .val
 
@@ -59,6 +65,24 @@ def targets? : Nat → List String → Option (List Target × List String)
     pure (⟨kb, ad, am⟩ :: ts, r')
   | _, _ => none
 
+def triples? : Nat → List String → Option (List (Addr × Nat × Nat) × List String)
+  | 0, r => some ([], r)
+  | n + 1, a :: b :: c :: r => do
+    let a ← addr? a
+    let b ← nat? b
+    let c ← nat? c
+    let (l, r') ← triples? n r
+    pure ((a, b, c) :: l, r')
+  | _, _ => none
+
+def ids? : Nat → List String → Option (List Nat × List String)
+  | 0, r => some ([], r)
+  | n + 1, i :: r => do
+    let i ← hexNat? i
+    let (l, r') ← ids? n r
+    pure (i :: l, r')
+  | _, _ => none
+
 def body? : List String → Option (Body × List String)
   | "e" :: r => some (.empty, r)
   | "j" :: d :: r => do let b ← ofHex? d; pure (.badJson b, r)
@@ -66,6 +90,17 @@ def body? : List String → Option (Body × List String)
     let k ← nat? n
     let (ts, r') ← targets? k r
     pure (.transfer ts, r')
+  | "r" :: a :: i :: r => do
+    let amt ← (if a == "x" then some none else (nat? a).map some)
+    let id ← hexNat? i
+    pure (.refund amt id, r)
+  | "o" :: ok :: ev :: m :: n :: r => do
+    let ok ← (if ok == "1" then some true else if ok == "0" then some false else none)
+    let ev ← (if ev == "1" then some true else if ev == "0" then some false else none)
+    let m ← ofHex? m
+    let k ← nat? n
+    let (sets, r') ← triples? k r
+    pure (.observed ok ev m sets, r')
   | _ => none
 
 def txs? : Nat → List String → Option (List Tx × List String)
@@ -132,7 +167,22 @@ def sortItems? : Nat → List String → Option (List Tx × List String)
     pure (⟨h, rq, no, 100, ss, 0, 0, sn, .empty⟩ :: ts, r')
   | _, _ => none
 
-/-- `x` = CalculateReward returned nil; else `<nextHeight> <castor> <share> <np> pairs <nv> pairs` -/
+/-- `F <totalBits> <rewardBlocks> <castorIdHex> <x | n ids…>`: reward computed by the model from its registry -/
+def rewardCfg? : List String → Option (RewardCfg × List String)
+  | tb :: rb :: ca :: "x" :: r => do
+    let tb ← nat? tb
+    let rb ← nat? rb
+    let ca ← hexNat? ca
+    pure (⟨tb, rb, ca, none⟩, r)
+  | tb :: rb :: ca :: n :: r => do
+    let tb ← nat? tb
+    let rb ← nat? rb
+    let ca ← hexNat? ca
+    let n ← nat? n
+    let (l, r') ← ids? n r
+    pure (⟨tb, rb, ca, some l⟩, r')
+  | _ => none
+
 def rewardIn? : List String → Option (Option RewardIn × List String)
   | "x" :: r => some (none, r)
   | nh :: ca :: cs :: np :: r => do
@@ -157,7 +207,18 @@ def underRhos (f : Orders → String × St) : Option (String × St) :=
   | [a, b, c] => if a.1 == b.1 && a.1 == c.1 then some a else none
   | _ => none
 
-def noOther : Tx → Nat → St → OpaqueOut := fun _ _ s => ⟨s, false, [], 0, []⟩
+/-- the uninterpreted executors in a correspondence run: replay what the implementation was
+    observed to do at this point of the block (only the composition is under test) -/
+def noOther : Tx → Nat → St → OpaqueOut := fun tx _ s =>
+  match tx.body with
+  | .observed ok ev msg sets =>
+    ⟨sets.foldl (fun s e => { s with bal := upd s.bal e.1 e.2.1, nonce := upd s.nonce e.1 e.2.2 }) s, ok, msg, 0, [], ev⟩
+  | _ => ⟨s, false, [], 0, [], false⟩
+
+def observedOk (txs : List Tx) : Bool :=
+  txs.all (fun t => if isOpaqueTyp t.typ then
+      (t.typ == 200 || t.typ == 188) && (match t.body with | .observed .. => true | _ => false)
+    else true)
 
 def showReceipts (rs : List Receipt) : String :=
   ",".intercalate (rs.map (fun r => hex32 r.hash ++ ":" ++ (if r.failed then "0" else "1") ++ ":" ++ toHex r.msg))
@@ -174,6 +235,11 @@ def step (d : DS) (line : String) : DS × String :=
     match nat? h, addr? i, nat? v with
     | some h, some i, some v => ({ d with st := addEscrow (clearEscrow d.st h i) h i v }, "ok")
     | _, _, _ => (d, "bad-op")
+  | ["miner", i, t, st, ac, ha, su, ah] =>
+    match hexNat? i, nat? t, nat? st, addr? ac, nat? ha, nat? su, nat? ah with
+    | some i, some t, some st, some ac, some ha, some su, some ah =>
+      ({ d with st := { d.st with miners := d.st.miners ++ [⟨i, t, st, ac, ha == 1, su, su, ah, true, true⟩] } }, "ok")
+    | _, _, _, _, _, _, _ => (d, "bad-op")
   | "watch" :: as =>
     match as.mapM addr? with
     | some l => ({ d with watch := l }, "ok")
@@ -183,26 +249,45 @@ def step (d : DS) (line : String) : DS × String :=
     | some l => ({ d with wesc := l }, "ok")
     | none => (d, "bad-op")
   | ["q"] => (d, dump d d.st)
-  | "block" :: h :: p4 :: fl :: fee :: fa :: r0 =>
-    match nat? h, nat? p4, flags? fl, nat? fee, addr? fa, rewardIn? r0 with
-    | some h, some p4, some fl, some fee, some fa, some (rw, n :: r) =>
+  | "block" :: h :: p4 :: fl :: fee :: fa :: "S" :: b10 :: b19 :: b25 :: ca :: r0 =>
+    let rwf? : Option ((Nat → St → Option RewardIn) × List String) :=
+      match r0 with
+      | "F" :: r1 => (rewardCfg? r1).map (fun (c, r) => (fun hh s => some (rewardInOf c hh s), r))
+      | _ => (rewardIn? r0).map (fun (rw, r) => (fun _ _ => rw, r))
+    let far : Nat := 0xFFFFFFFFFFFFFFFF
+    let hdr? : Option Header := do
+      let h ← nat? h
+      let p4 ← nat? p4
+      let b10 ← nat? b10
+      let b19 ← nat? b19
+      let p25 ← (if b25 == "x" then some far else nat? b25)
+      let ca ← hexNat? ca
+      pure { height := h, p004Block := p4, p010Block := if b10 == 1 then h else far,
+             p019Block := if b19 == 1 then h else far, p025Block := p25, castor := ca }
+    match nat? h, nat? p4, flags? fl, nat? fee, addr? fa, rwf?, hdr? with
+    | some h, some _, some fl, some fee, some fa, some (rwf, n :: r), some hdr =>
       match (nat? n).bind (fun n => txs? n r) with
       | some (txs, []) =>
-        if txs.any (fun t => isOpaqueTyp t.typ) then (d, "unmodelled")
+        if !observedOk txs then (d, "unmodelled")
+        else if hdr.p025Block + 36000 ≤ h then (d, "unmodelled")   -- second part of calcDifficulty
         else if hasEqualHashPair fl txs then (d, "unmodelled")
-        else if txs.length > 12 then (d, "unmodelled")
+        else if (sortTxsAny fl txs).isNone then (d, "unmodelled")
         else
           let env : Env := ⟨fa, fee, noOther⟩
           let ids := fun (hh : Nat) => (d.wesc.filter (fun e => e.1 == hh)).map (·.2)
           let run := fun (ρ : Orders) =>
-            let res := execBlock ρ env fl ⟨h, p4⟩ rw (ids h ++ ids 0).eraseDups d.st txs
+            let res := execBlock ρ env fl hdr (rwf h) (ids h ++ ids 0).eraseDups d.st txs
             ("ev=" ++ ",".intercalate (res.evicted.map hex32) ++ " rc=" ++ showReceipts res.receipts
-              ++ " " ++ dump d res.st, res.st)
+              ++ " " ++ dump d res.st ++ " df=" ++ toString (res.st.diff hdr.castor) ++ ":" ++ toString res.st.working, res.st)
           match underRhos run with
           | some (o, s) => ({ d with st := s }, o)
           | none => (d, "rho-diff")
       | _ => (d, "bad-op")
-    | _, _, _, _, _, _ => (d, "bad-op")
+    | _, _, _, _, _, _, _ => (d, "bad-op")
+  | ["diff", ca, v, w] =>
+    match hexNat? ca, nat? v, nat? w with
+    | some ca, some v, some w => ({ d with st := { d.st with diff := upd d.st.diff ca v, working := w } }, "ok")
+    | _, _, _ => (d, "bad-op")
   | "ca" :: src :: n :: r =>
     match addr? src, nat? n with
     | some src, some n =>
@@ -252,8 +337,9 @@ def step (d : DS) (line : String) : DS × String :=
       match sortItems? n r with
       | some (txs, []) =>
         if hasEqualHashPair fl txs then (d, "unmodelled")
-        else if txs.length > 12 then (d, "unmodelled")
-        else (d, ",".intercalate ((sortTxs fl txs).map (fun t => hex32 t.hash)))
+        else match sortTxsAny fl txs with
+          | none => (d, "unmodelled")
+          | some out => (d, ",".intercalate (out.map (fun t => hex32 t.hash)))
       | _ => (d, "bad-op")
     | _, _ => (d, "bad-op")
   | _ => (d, "bad-op")
